@@ -3,7 +3,5 @@ package mon
 
 import "verif/internal/vk"
 
-// Table maps a monitor name to its entry point.
-var Table = map[string]func(*vk.Rec){
-	"C06": C06,
-}
+// Table maps a monitor name to its entry point; each cNN.go registers itself.
+var Table = map[string]func(*vk.Rec){}
